@@ -6,6 +6,7 @@ R18.2  accumulator typestate of iter_sse: pending lines are parsed+yielded befor
        accumulator is reset after a dispatch, parsed events are yielded
 R18.3  _parse_sse_event: comment test dominates field dispatch, data kept in order and joined with "\n"
 R18.6  iter_sse tests and accumulates each line of aiter_lines() unmodified (no strip / rewrite of the loop variable)
+R18.7  what a decoder has buffered lives in the call (or in a per-instance attribute): no class-level / module-level / default-argument container
 R18.5  a value whose truthiness guards a yield is an instance of a class without __bool__/__len__ (an empty event is still delivered)
 R18.4  iter_ndjson: one yield per non-empty line, nothing carried between lines
 """
@@ -52,6 +53,7 @@ def run(repo: Repo, rep: Report, tier: str) -> None:
     decoder_names = set(decoders)
     rule_truth_tested_instances(repo, rep, "R18.5")
     rule_lines_untouched(repo, rep, "R18.6")
+    rule_decoder_state_is_per_stream(repo, rep, "R18.7")
 
     # ---------------------------------------------------------------- R18.1
     for q, fn in sorted(decoders.items()):
@@ -605,3 +607,112 @@ def rule_truth_tested_instances(repo: Repo, rep, rule: str = "R18.5") -> None:
             else:
                 rep.ok(rule, sub, f"{cls_name} defines neither __bool__ nor __len__: every parsed instance is true, so the guard never drops an event", fn.loc(t))
     rep.count(f"{rule}:truth_tested_instances", n)
+
+
+# ------------------------------------------------------------------------------------------------ R18.7 decoder state belongs to one stream
+_R187_EXAMPLE = '''
+class _Pending:
+    lines: List[str] = []
+
+    def take(self):
+        event = parse(self.lines)
+        self.lines.clear()
+        return event
+
+async def iter_sse(response):
+    pending = _Pending()
+    async for line in response.aiter_lines():
+        pending.lines.append(line)
+'''
+_MUTATORS = ("append", "extend", "add", "update", "insert", "clear", "pop", "remove", "setdefault")
+
+
+def _shared_decoder_state(tree: ast.AST):
+    """Mutable containers that outlive one call of a decoder and are changed by the module's code: (kind, name, definition node, mutation node).
+    kind 'class': a class-level list / dict / set of a plain (non-dataclass) class mutated through an instance or the class;
+    kind 'module': a module-level container mutated inside a function; kind 'default': a mutable default of a function parameter that
+    is mutated in the function."""
+    out = []
+
+    def mutable(v: Optional[ast.AST]) -> bool:
+        return v is not None and (isinstance(v, (ast.List, ast.Dict, ast.Set)) or (isinstance(v, ast.Call) and (dotted(v.func) or "").split(".")[-1] in (
+            "list", "dict", "set", "deque", "defaultdict", "bytearray", "OrderedDict")))
+
+    cls_attrs, mod_names = {}, {}
+    for st in getattr(tree, "body", []):
+        if isinstance(st, ast.ClassDef):
+            if any("dataclass" in norm(d) for d in st.decorator_list):
+                continue
+            for b in st.body:
+                if isinstance(b, (ast.Assign, ast.AnnAssign)):
+                    t = b.targets[0] if isinstance(b, ast.Assign) else b.target
+                    if isinstance(t, ast.Name) and mutable(b.value):
+                        cls_attrs[t.id] = (st.name, b)
+            # attributes (re)bound per instance in __init__ are per-instance state
+            for b in st.body:
+                if isinstance(b, ast.FunctionDef) and b.name == "__init__":
+                    for a in ast.walk(b):
+                        if isinstance(a, (ast.Assign, ast.AnnAssign)):
+                            for t in (a.targets if isinstance(a, ast.Assign) else [a.target]):
+                                if isinstance(t, ast.Attribute) and isinstance(t.value, ast.Name) and t.value.id == "self":
+                                    cls_attrs.pop(t.attr, None)
+        elif isinstance(st, (ast.Assign, ast.AnnAssign)):
+            t = st.targets[0] if isinstance(st, ast.Assign) else st.target
+            if isinstance(t, ast.Name) and mutable(st.value) and not t.id.startswith("__"):
+                mod_names[t.id] = st
+    for fn in ast.walk(tree):
+        if not isinstance(fn, (ast.FunctionDef, ast.AsyncFunctionDef)):
+            continue
+        local_stores = {x.id for x in ast.walk(fn) if isinstance(x, ast.Name) and isinstance(x.ctx, ast.Store)} | {a.arg for a in fn.args.args + fn.args.kwonlyargs}
+        defaults = {}
+        pos = fn.args.args
+        for a, d in zip(pos[len(pos) - len(fn.args.defaults):], fn.args.defaults):
+            if mutable(d):
+                defaults[a.arg] = d
+        for a, d in zip(fn.args.kwonlyargs, fn.args.kw_defaults):
+            if d is not None and mutable(d):
+                defaults[a.arg] = d
+        for c in ast.walk(fn):
+            recv = None
+            if isinstance(c, ast.Call) and isinstance(c.func, ast.Attribute) and c.func.attr in _MUTATORS:
+                recv = c.func.value
+            elif isinstance(c, (ast.Assign, ast.AugAssign)):
+                for t in (c.targets if isinstance(c, ast.Assign) else [c.target]):
+                    if isinstance(t, ast.Subscript):
+                        recv = t.value
+            if recv is None:
+                continue
+            if isinstance(recv, ast.Attribute) and recv.attr in cls_attrs and isinstance(recv.value, ast.Name):
+                # rebinding `self.x = []` inside the same function before the mutation makes it instance state
+                rebound = any(isinstance(a, ast.Assign) and any(isinstance(t, ast.Attribute) and t.attr == recv.attr for t in a.targets) for a in ast.walk(fn))
+                if not rebound:
+                    out.append(("class", f"{cls_attrs[recv.attr][0]}.{recv.attr}", cls_attrs[recv.attr][1], c))
+            elif isinstance(recv, ast.Name) and recv.id in mod_names and recv.id not in local_stores:
+                out.append(("module", recv.id, mod_names[recv.id], c))
+            elif isinstance(recv, ast.Name) and recv.id in defaults:
+                out.append(("default", f"{fn.name}({recv.id}=...)", defaults[recv.id], c))
+    return out
+
+
+def rule_decoder_state_is_per_stream(repo: Repo, rep, rule: str = "R18.7") -> None:
+    """What a decoder has collected of an unfinished event / record belongs to the stream it is reading.  Kept in a class-level or module-level
+    container (or a mutable default), it is one object for every stream of the process: two streams consumed concurrently mix their lines,
+    and a stream that dies in the middle of an event leaves its lines to the next one - the items then depend on how the chunks of the
+    streams interleave."""
+    hz = _shared_decoder_state(ast.parse(_R187_EXAMPLE))
+    rep.require(len(hz) >= 1 and all(k == "class" for k, *_ in hz), f"{rule}: the built-in positive example is no longer recognised - the rule is broken")
+    mod = repo.module(MOD)
+    hz = _shared_decoder_state(mod.tree)
+    n_fn = sum(1 for n in ast.walk(mod.tree) if isinstance(n, (ast.FunctionDef, ast.AsyncFunctionDef)))
+    rep.count(f"{rule}:functions", n_fn)
+    seen = set()
+    for kind, name, dnode, mnode in hz:
+        if name in seen:
+            continue
+        seen.add(name)
+        rep.violation(rule, f"{mod.relpath} `{name}` ({kind}-level container changed by the decoders)", f"{mod.name}|shared-decoder-state|{kind}|{name}",
+                      f"`{norm(dnode)[:50]}` exists once per process and is changed by `{norm(mnode)[:50]}`: every stream being decoded shares it - lines of concurrently "
+                      "consumed streams end up in each other's events, and an aborted stream's pending lines are delivered with the next stream's first event",
+                      f"{mod.relpath}:{dnode.lineno}")
+    if not hz:
+        rep.ok(rule, f"{mod.relpath} decoder state", f"{n_fn} functions: no class-level / module-level / default-argument container is changed by the decoders", f"{mod.relpath}:1")
